@@ -659,7 +659,20 @@ class Fn:
     @staticmethod
     def _project(val, path):
         e = val
-        for p in path:
+        for k_, p in enumerate(path):
+            if isinstance(e, tuple) and e[0] == 'phi' and p[0] in ('f', 'v') and any(isinstance(a, tuple) and a[0] == 'agg' for a in e[1]):
+                # a merge of struct / enum literals (a decision carried in a value): project every alternative;
+                # a variant downcast keeps only the alternatives of that variant
+                alts_ = []
+                for a in e[1]:
+                    if p[0] == 'v' and isinstance(a, tuple) and a[0] == 'agg' and '::' in str(a[1]):
+                        if not str(a[1]).endswith('::' + str(p[1])):
+                            continue
+                        alts_.append(Fn._project(a, path[k_ + 1:]))    # the literal is of that variant
+                        continue
+                    alts_.append(Fn._project(a, path[k_:]))
+                if alts_:
+                    return Fn._mkphi(alts_)
             if p[0] == 'f':
                 # projection of an aggregate we know
                 if isinstance(e, tuple) and e[0] == 'agg' and p[1].isdigit() and int(p[1]) < len(e[2]) and (e[1] in ('tuple', 'array') or '::' in e[1]):
@@ -673,6 +686,8 @@ class Fn:
                 else:
                     e = ('field', e, p[1])
             elif p[0] == 'v':
+                if isinstance(e, tuple) and e[0] == 'agg' and '::' in str(e[1]) and str(e[1]).endswith('::' + str(p[1])):
+                    continue
                 if isinstance(e, tuple) and e[0] == 'entry':
                     e = ('entry', ('variant', e[1], p[1]))
                 else:
